@@ -641,6 +641,23 @@ Proof.
   rewrite nm_build_self. apply lvl_rel_setnm. exact H.
 Qed.
 
+(** the engine's state at the cursor of a whole line: [ValueDone], before `--`, at a level related to the parser's *)
+Theorem shadow_line c0 bin line w after pcf f b :
+  tree_all unb c0 -> is_set s_no_binary_name c0 = false -> N.of_nat (length line) + 2 <= usize_max ->
+  build_full f c0 = BOk b -> cline (build_self (with_bin c0 bin)) line pcf ->
+  exists curf pif, start_walk b (bin :: line ++ w :: after) (N.of_nat (S (length line))) = WAt w curf pif ValueDone false
+                   /\ lvl_rel pcf curf.
+Proof.
+  intros Hu Hnb Hlen Hb Hline.
+  pose proof (root_rel _ c0 bin b Hu Hb) as Hrel.
+  assert (Hnb' : is_set s_no_binary_name b = false).
+  { rewrite <- (lvl_rel_is_set _ _ s_no_binary_name Hrel), build_self_nbn.
+    destruct (with_bin_cases c0 bin) as [-> | ->]; [exact Hnb|]. destruct c0; exact Hnb. }
+  rewrite (start_walk_run b bin line w after Hnb' Hlen).
+  destruct (eng_line _ line pcf Hline b 1 Hrel) as [curf [pif [Hrun Hrelf]]].
+  exists curf, pif. rewrite Hrun. split; [reflexivity|exact Hrelf].
+Qed.
+
 (** * END TO END *)
 Theorem candidate_accepted_line tbl c0 bin line w after l cd pcf e :
   tree_all unb c0 -> is_set s_no_binary_name c0 = false ->
@@ -673,3 +690,265 @@ Proof.
     apply (final_tail tbl w curf pif l cd pcf Hlf Hrelf Hc Hin Hcc).
   - destruct x; discriminate.
 Qed.
+
+(** * STATE AGREEMENT, stated for both machines *)
+
+(** after an option prefix: the engine is back in [ValueDone] (same level, same positional index, not escaped)
+    and the parser's token loop is back in [ValuesDone] (same positional counter, `--` not seen) *)
+Theorem state_agreement_prefix pc cur pre F : elevel pc cur -> prefix_ok pc pre F ->
+  (forall pi, shadow_run pre cur pi false ValueDone = SNext cur pi false ValueDone) /\
+  (forall rest pos vaf st, fs_skip st = 0 ->
+     parse_loop pc (pre ++ rest) (lsV pos vaf) st =
+     (do st' <- F st; parse_loop pc rest (lsV pos (vaf || negb (is_nil pre))) st')).
+Proof.
+  intros L Hp. split; [apply (eng_prefix pc cur L pre F Hp)|apply (loop_prefix pc pre F Hp)].
+Qed.
+
+(** the token that opens an option: `--opt` / `-o` of an option that takes a value, without [require_equals] *)
+Inductive open_tok (c : cmd) : bytes -> arg -> ident -> Prop :=
+| ot_long tok f a : no_sub c tok -> to_long tok = Some (f, true, None) -> get_long c f = Some a ->
+    a_takes_value a = true -> a_req_eq a = false -> open_tok c tok a ILong
+| ot_short tok r ch a : no_sub c tok -> is_escape tok = false -> to_long tok = None -> to_short tok = Some r ->
+    sf_next r = Some (inl ch, []) -> get_short c ch = Some a -> a_takes_value a = true -> a_req_eq a = false ->
+    no_hyphen c -> open_tok c tok a IShort.
+
+(** ... then the engine stands in [Opt a 1] exactly when the parser stands in [PSOpt (a_id a)] - the SAME argument -
+    with an empty pending occurrence *)
+Theorem state_agreement_open pc cur pre F tok a idn : elevel pc cur -> prefix_ok pc pre F -> open_tok pc tok a idn ->
+  (forall pi, shadow_run (pre ++ [tok]) cur pi false ValueDone = SNext cur pi false (Opt a 1)) /\
+  (forall rest pos vaf st, fs_skip st = 0 ->
+     parse_loop pc (pre ++ tok :: rest) (lsV pos vaf) st =
+     (do st' <- F st; do st1 <- resolve_pending pc st';
+      parse_loop pc rest (mkL (PSOpt (a_id a)) pos true false)
+        (st1 <| mt := (mt st1) <| mt_pending := Some (mkPending (a_id a) (Some idn) [] None) |> |>))).
+Proof.
+  intros L Hp Ho. split.
+  - intros pi. rewrite shadow_run_app, (eng_prefix pc cur L pre F Hp). cbn [shadow_run].
+    destruct Ho as [tok f a Hns Hl Hg Htv Hre|tok r ch a Hns He Hl Hs Hn Hg Htv Hre Hnh].
+    + rewrite (eng_long pc cur L tok f None a pi Hns Hl Hg), Htv. reflexivity.
+    + rewrite (eng_short_opt pc cur L tok r ch [] a pi Hns He Hl Hs Hn Hg Htv). reflexivity.
+  - intros rest pos vaf st Hfs. rewrite (loop_prefix pc pre F Hp (tok :: rest) pos vaf st Hfs).
+    destruct (F st) as [st'|e1 s1|x] eqn:EF; cbn [rbind]; try reflexivity.
+    assert (Hfs' : fs_skip st' = 0) by (rewrite (prefix_fs pc pre F Hp _ _ EF); exact Hfs).
+    destruct Ho as [tok f a Hns Hl Hg Htv Hre|tok r ch a Hns He Hl Hs Hn Hg Htv Hre Hnh].
+    + apply (loop_long_open pc tok f a rest pos _ st' Hns Hl Hg Htv Hre).
+    + apply (loop_short_open pc tok r ch a rest pos _ st' Hns He Hl Hs Hn Hg Htv Hre Hnh Hfs').
+Qed.
+
+(** * The classes are decidable *)
+Definition lvl18_b (pc : cmd) : bool :=
+  assert_app pc
+  && forallb (fun a => is_nil (a_short_aliases a) || negb (a_is_positional a)) (c_args pc)
+  && forallb (fun a => is_nil (a_aliases a) || is_some (a_long a)) (c_args pc)
+  && negb (is_set s_args_negate_subs pc).
+
+Lemma lvl18_b_ok pc : lvl18_b pc = true -> lvl18 pc.
+Proof.
+  unfold lvl18_b. intros H. apply andb_true_iff in H. destruct H as [H H4]. apply andb_true_iff in H. destruct H as [H H3].
+  apply andb_true_iff in H. destruct H as [H1 H2]. constructor.
+  - exact H1.
+  - intros a Ha Hne. pose proof (forall_args_dec _ _ H2 a Ha) as Hb. cbv beta in Hb.
+    destruct (a_short_aliases a); [tauto|]. cbn [is_nil orb] in Hb. apply negb_true_iff in Hb. exact Hb.
+  - intros a Ha Hne. pose proof (forall_args_dec _ _ H3 a Ha) as Hb. cbv beta in Hb.
+    destruct (a_aliases a); [tauto|]. destruct (a_long a); [discriminate|discriminate Hb].
+  - apply negb_true_iff in H4. exact H4.
+Qed.
+
+Definition subs_plain_b (pc : cmd) : bool :=
+  forallb (fun s => forallb (fun n => negb (hd 0 n =? DASH)) (c_name s :: all_aliases s)) (c_subs pc).
+
+Lemma subs_plain_b_ok pc : subs_plain_b pc = true -> subs_plain pc.
+Proof.
+  unfold subs_plain_b, subs_plain. intros H s n Hs Hn. rewrite forallb_forall in H. specialize (H s Hs).
+  rewrite forallb_forall in H. specialize (H n Hn). apply negb_true_iff in H. apply N.eqb_neq. exact H.
+Qed.
+
+Definition cand_class_b (pcf : cmd) (w : bytes) (cd : cand) : bool :=
+  match cd_id cd with
+  | Some (IdArg aid) =>
+      match EngineModel.to_short w with Some lead => forallb (has_short pcf) (decode lead) | None => true end
+      && subs_plain_b pcf
+      && match get_pos pcf 1 with Some p => negb (a_negnum p) | None => true end
+      && forallb (fun a => negb (beq (a_id a) aid) || (negb (a_is_positional a) && names_wf_b a)) (c_args pcf)
+  | Some (IdCmd n) => utf8_valid (cd_value cd)
+  | None => false
+  end.
+
+Lemma cand_class_b_ok pcf w cd : cand_class_b pcf w cd = true -> cand_class pcf w cd.
+Proof.
+  unfold cand_class_b, cand_class. destruct (cd_id cd) as [[aid|n]|]; [|auto|discriminate].
+  intros H. apply andb_true_iff in H. destruct H as [H H4]. apply andb_true_iff in H. destruct H as [H H3].
+  apply andb_true_iff in H. destruct H as [H1 H2]. split; [|split; [|split]].
+  - unfold typed_known. destruct (EngineModel.to_short w); [exact H1|exact I].
+  - apply subs_plain_b_ok. exact H2.
+  - unfold negnum_free. destruct (get_pos pcf 1); [apply negb_true_iff in H3; exact H3|exact I].
+  - intros a Ha Hid. pose proof (forall_args_dec _ _ H4 a Ha) as Hb. cbv beta in Hb.
+    rewrite Hid, beq_refl in Hb. cbn [negb orb] in Hb. apply andb_true_iff in Hb. destruct Hb as [Hp Hn].
+    split; [apply negb_true_iff in Hp; exact Hp|apply names_wf_b_ok; exact Hn].
+Qed.
+
+(** * Non-vacuity: a two-level line with every item shape, then an option and a subcommand candidate *)
+Module LineExample.
+Definition b1 (x : N) : bytes := [x].
+Definition w_cfg : bytes := [99; 102; 103].
+Definition w_verbose : bytes := [118; 101; 114; 98; 111; 115; 101].
+Definition w_quiet : bytes := [113; 117; 105; 101; 116].
+Definition w_yes : bytes := [121; 101; 115].
+Definition w_out : bytes := [111; 117; 116].
+Definition w_sync : bytes := [115; 121; 110; 99].
+Definition w_deep : bytes := [100; 101; 101; 112].
+Definition ddw (s : bytes) : bytes := 45 :: 45 :: s.
+(** p(--cfg/-c <v>; --verbose/-v; --quiet/-q) -> sync|sy(--yes/-y; --out/-o <v>) -> deep *)
+Definition ex18 : cmd :=
+  (cmd_new (b1 112))
+    <| c_args := [ (arg_new w_cfg) <| a_long := Some w_cfg |> <| a_short := Some 99 |> <| a_action := Some AAppend |>;
+                   (arg_new w_verbose) <| a_long := Some w_verbose |> <| a_short := Some 118 |> <| a_action := Some ACount |>;
+                   (arg_new w_quiet) <| a_long := Some w_quiet |> <| a_short := Some 113 |> <| a_action := Some ACount |> ] |>
+    <| c_subs :=
+      [ (cmd_new w_sync) <| c_aliases := [([115; 121], true)] |>
+          <| c_args := [ (arg_new w_yes) <| a_long := Some w_yes |> <| a_short := Some 121 |> <| a_action := Some ASetTrue |>;
+                         (arg_new w_out) <| a_long := Some w_out |> <| a_short := Some 111 |> <| a_action := Some AAppend |> ] |>
+          <| c_subs := [ cmd_new w_deep ] |> ] |>.
+(** `--verbose --cfg=a -vq --cfg b -cx -c y sy -y --out o1` *)
+Definition pre0 : list bytes :=
+  [ddw w_verbose; ddw (w_cfg ++ [61; 97]); [45; 118; 113]; ddw w_cfg; b1 98; [45; 99; 120]; [45; 99]; b1 121].
+Definition pre1 : list bytes := [[45; 121]; ddw w_out; [111; 49]].
+Definition ex_line : list bytes := pre0 ++ [115; 121] :: pre1.
+Definition root : cmd := build_self (with_bin ex18 (b1 112)).
+Definition pcf : cmd := match build_subcommand root w_sync with Some x => x | None => cmd_new [] end.
+
+Ltac solve_nosub := let v := fresh "v" in intros v; destruct v; vm_compute; reflexivity.
+Ltac vmr := vm_compute; reflexivity.
+
+Lemma pre0_ok : opt_prefix root pre0.
+Proof.
+  eexists. eapply (po_cons _ [ddw w_verbose]). { eapply it_flag; [solve_nosub|vmr|vmr|vmr]. }
+  eapply (po_cons _ [ddw (w_cfg ++ [61; 97])]). { eapply it_eq; [solve_nosub|vmr|vmr|vmr]. }
+  eapply (po_cons _ [[45; 118; 113]]).
+  { eapply it_cluster; [solve_nosub|]. exists 118, [113]. split; [reflexivity|]. split; [discriminate|]. split; [reflexivity|].
+    eapply cf_cons; [reflexivity|vmr|vmr|]. eapply cf_cons; [reflexivity|vmr|vmr|apply cf_nil]. }
+  eapply (po_cons _ [ddw w_cfg; b1 98]).
+  { eapply it_sep; [solve_nosub|vmr|vmr|vmr|vmr|vmr|vmr|vmr|solve_nosub|vmr|vmr|vmr|vmr]. }
+  eapply (po_cons _ [[45; 99; 120]]).
+  { eapply (it_short_att _ _ [99; 120] 99 120 []); [solve_nosub|vmr|vmr|vmr|vmr|discriminate|vmr|vmr|vmr|].
+    intros pos. unfold no_hyphen_pos. replace (get_pos root pos) with (@None arg); [exact I|].
+    symmetry. apply pos_free_get_pos. vmr. }
+  eapply (po_cons _ [[45; 99]; b1 121] _ []); [|apply po_nil].
+  eapply (it_short_sep _ _ [99] 99); [solve_nosub|vmr|vmr|vmr|vmr|vmr|vmr|vmr| |vmr|vmr|vmr|solve_nosub|vmr|vmr|vmr|vmr].
+  intros pos. unfold no_hyphen_pos. replace (get_pos root pos) with (@None arg); [exact I|].
+  symmetry. apply pos_free_get_pos. vmr.
+Qed.
+
+Lemma pre1_ok : opt_prefix pcf pre1.
+Proof.
+  eexists. eapply (po_cons _ [[45; 121]]).
+  { eapply it_cluster; [solve_nosub|]. exists 121, []. split; [reflexivity|]. split; [discriminate|]. split; [reflexivity|].
+    eapply cf_cons; [reflexivity|vmr|vmr|apply cf_nil]. }
+  eapply (po_cons _ [ddw w_out; [111; 49]] _ []); [|apply po_nil].
+  eapply it_sep; [solve_nosub|vmr|vmr|vmr|vmr|vmr|vmr|vmr|solve_nosub|vmr|vmr|vmr|vmr].
+Qed.
+
+Lemma ex_cline : cline root ex_line pcf.
+Proof.
+  unfold ex_line. eapply (cl_down root pre0 [115; 121] _ pcf pre1 pcf).
+  - apply lvl18_b_ok. vmr.
+  - exact pre0_ok.
+  - vmr.
+  - vmr.
+  - vmr.
+  - vmr.
+  - apply cl_here; [apply lvl18_b_ok; vmr|exact pre1_ok].
+Qed.
+
+(** `p <line> --o<TAB>` offers `--out`; `p <line> d<TAB>` offers `deep`: both in the class *)
+Example ex_line_hyps :
+  unb_tree 5 ex18 = true /\ is_set s_no_binary_name ex18 = false /\
+  N.of_nat (length ex_line) + 2 <= usize_max /\ cline root ex_line pcf /\
+  (match complete_model [] ex18 (b1 112 :: ex_line ++ [[45; 45; 111]]) (N.of_nat (S (length ex_line))) with
+   | COk l => existsb (fun cd => beq (cd_value cd) (ddw w_out) && cand_class_b pcf [45; 45; 111] cd) l
+   | _ => false end = true) /\
+  (match complete_model [] ex18 (b1 112 :: ex_line ++ [[100]]) (N.of_nat (S (length ex_line))) with
+   | COk l => existsb (fun cd => beq (cd_value cd) w_deep && cand_class_b pcf [100] cd) l
+   | _ => false end = true).
+Proof.
+  split; [vmr|]. split; [vmr|]. split; [vm_compute; discriminate|]. split; [exact ex_cline|]. split; vmr.
+Qed.
+
+(** the completed lines, parsed: `... --out` lacks its value (InvalidValue, not an unknown token); `... deep` succeeds *)
+Example ex_line_parses :
+  (match parse_top ex18 (b1 112 :: ex_line ++ [ddw w_out]) with OErr e => Some (e_kind e) | _ => None end,
+   match parse_top ex18 (b1 112 :: ex_line ++ [w_deep]) with OOk _ => true | _ => false end)
+  = (Some EInvalidValue, true).
+Proof. vm_compute. reflexivity. Qed.
+End LineExample.
+
+(** * Part 6: class boundaries, with witnesses (replayed on the real crate, see docs/notes/C18.md) *)
+
+(** [require_equals]: the engine has no model of it.  `p --opt <TAB>` with `--opt` = Set, num_args(0..=1),
+    require_equals(true), possible value `va`: the engine stands in [Opt] and offers `va`; for the parser
+    `--opt` (without `=`) is a complete occurrence, the next word starts a new argument, and the completed
+    line `p --opt va` is rejected with UnknownArgument.  (The hypothesis [a_req_eq a = false] of the items
+    `--opt v` / `-o v` and of [open_tok] cannot be dropped.) *)
+Module ReqEq.
+Definition w_opt : bytes := [111; 112; 116].
+Definition w_va : bytes := [118; 97].
+Definition c0 : cmd :=
+  (cmd_new [112])
+    <| c_args := [ (arg_new w_opt) <| a_long := Some w_opt |> <| a_action := Some ASet |>
+                     <| a_num := Some {| vmin := 0; vmax := 1 |} |> <| a_req_eq := true |> ] |>.
+Definition tbl : pvtable := [(w_opt, [(w_va, false)])].
+Definition line : list bytes := [45 :: 45 :: w_opt].
+End ReqEq.
+
+Definition reqeq_b : cmd := match build_full (build_fuel ReqEq.c0) ReqEq.c0 with BOk b => b | _ => cmd_new [] end.
+Definition reqeq_a : arg := match c_args reqeq_b with a :: _ => a | [] => arg_new [] end.
+Definition reqeq_l : list cand :=
+  match complete_model ReqEq.tbl ReqEq.c0 ([112] :: ReqEq.line ++ [[]]) 2 with COk l => l | _ => [] end.
+Definition reqeq_m : matches := match parse_top ReqEq.c0 ([112] :: ReqEq.line) with OOk m => m | _ => Matches [] None end.
+Definition reqeq_e : error :=
+  match parse_top ReqEq.c0 ([112] :: ReqEq.line ++ [ReqEq.w_va]) with OErr e => e | _ => mkError EDisplayHelp [] false [] None end.
+
+Theorem require_equals_refuted : exists tbl c0 bin line cd,
+  (* the line itself is fine for the parser *)
+  (exists m, parse_top c0 (bin :: line) = OOk m) /\
+  (* the engine awaits a value of an option that requires `=` ... *)
+  (exists b cur a, build_full (build_fuel c0) c0 = BOk b /\
+     start_walk b (bin :: line ++ [[]]) (N.of_nat (S (length line))) = WAt [] cur 1 (Opt a 1) false /\ a_req_eq a = true) /\
+  (* ... offers a value candidate ... *)
+  (exists l, complete_model tbl c0 (bin :: line ++ [[]]) (N.of_nat (S (length line))) = COk l /\ In cd l) /\
+  (* ... and the completed line is rejected: unknown argument *)
+  (exists e, parse_top c0 (bin :: line ++ [cd_value cd]) = OErr e /\ e_kind e = EUnknownArgument).
+Proof.
+  exists ReqEq.tbl, ReqEq.c0, [112], ReqEq.line, (mkCand ReqEq.w_va None false).
+  split; [exists reqeq_m; vm_compute; reflexivity|].
+  split; [exists reqeq_b, reqeq_b, reqeq_a; split; [vm_compute; reflexivity|split; vm_compute; reflexivity]|].
+  split; [exists reqeq_l; split; [vm_compute; reflexivity|vm_compute; left; reflexivity]|].
+  exists reqeq_e. split; vm_compute; reflexivity.
+Qed.
+
+(** completeness of option candidates needs [a_long a <> None]: a VISIBLE alias `--opt` of an option without a
+    long name (a key of the parser: [get_long] resolves it) extends the word `--` but no candidate carries
+    the option's id *)
+Definition alias_a : arg := match c_args ex_alias_only with a :: _ => a | [] => arg_new [] end.
+Definition alias_l : list cand := match complete_arg [] [45; 45] ex_alias_only 1 ValueDone with COk l => l | _ => [] end.
+Theorem complete_options_alias_refuted : exists tbl w c pi l a s,
+  assert_app c = true /\ complete_arg tbl w c pi ValueDone = COk l /\
+  In a (c_args c) /\ a_hide a = false /\ In s (vis_aliases (a_aliases a)) /\
+  ~ In EngineModel.EQ s /\ utf8_valid w = true /\ is_prefix w (EngineModel.dd ++ s) = true /\ get_long c s = Some a /\
+  existsb (fun y => opt_cid_eqb (cd_id y) (Some (IdArg (a_id a)))) l = false.
+Proof.
+  exists [], [45; 45], ex_alias_only, 1, alias_l, alias_a, [111; 112; 116].
+  split; [vm_compute; reflexivity|]. split; [vm_compute; reflexivity|].
+  split; [vm_compute; left; reflexivity|]. split; [vm_compute; reflexivity|]. split; [vm_compute; left; reflexivity|].
+  split; [vm_compute; intros H; repeat (destruct H as [H|H]; [discriminate H|]); exact H|].
+  split; [vm_compute; reflexivity|]. split; [vm_compute; reflexivity|]. split; vm_compute; reflexivity.
+Qed.
+
+(** * Summary statements used by Properties/C18.v *)
+Theorem lexers_agree s :
+  EngineModel.to_long s = to_long s /\ EngineModel.to_short s = to_short s /\ EngineModel.is_escape s = is_escape s.
+Proof. exact (conj (lex_to_long s) (conj (lex_to_short s) (lex_is_escape s))). Qed.
+
+Theorem line_classes_decidable :
+  (forall pc, lvl18_b pc = true -> lvl18 pc) /\ (forall pcf w cd, cand_class_b pcf w cd = true -> cand_class pcf w cd).
+Proof. exact (conj lvl18_b_ok cand_class_b_ok). Qed.
